@@ -319,7 +319,8 @@ def reported_strategy_stream(ctx):
     worlds = sorted(set([2, 3, 4, 6, 7, 12, 49, 98, 103, 107, 161] + [rng.randrange(2, 260) for _ in range(ctx.budget(12, 120))]))
     if ctx.tier == 'thorough':
         worlds = list(range(2, 261))
-    orig = (kp.get_world_size, kp.get_rank, dist.new_group)
+    _missing = object()
+    orig = (getattr(kp, 'get_world_size', _missing), getattr(kp, 'get_rank', _missing), dist.new_group)
     try:
         for w in worlds:
             ks = gen.divisors(w)
@@ -343,7 +344,13 @@ def reported_strategy_stream(ctx):
                 ctx.evaluations += 1
             ctx.count('reported-strategy-worlds')
     finally:
-        kp.get_world_size, kp.get_rank, dist.new_group = orig
+        dist.new_group = orig[2]
+        for nm_, o_ in (('get_world_size', orig[0]), ('get_rank', orig[1])):
+            if o_ is _missing:
+                if hasattr(kp, nm_):
+                    delattr(kp, nm_)
+            else:
+                setattr(kp, nm_, o_)
 
 
 def history_stream(ctx):
